@@ -70,12 +70,12 @@ type Phase struct {
 type PV struct {
 	Present bool
 	Deleted bool
-	Index   uint64
+	Index   uint8
 }
 
 type Tx struct {
 	Exists                               bool
-	Version                              uint64
+	Version                              uint8
 	State                                int32
 	Failed                               bool // Status.Failure != nil
 	FailType                             int32
@@ -84,32 +84,32 @@ type Tx struct {
 	// constants of the log entry, chosen by the environment when the entry is appended
 	Targets       [NT]bool
 	IsRollback    bool
-	RollbackIndex uint64
+	RollbackIndex uint8
 }
 
 type Prop struct {
 	Exists                               bool
-	Version                              uint64
-	Prev, Next                           uint64
-	RollbackIndex                        uint64
+	Version                              uint8
+	Prev, Next                           uint8
+	RollbackIndex                        uint8
 	Rollback                             [NX]PV
 	ValFailed                            bool
 	ValFailType                          int32
 	ApplyFailed                          bool
 	ApplyFailType                        int32
-	ApplyTerm                            uint64
+	ApplyTerm                            uint8
 	Init, Validate, Commit, Abort, Apply Phase
 }
 
 type Cfg struct {
 	Exists        bool
-	Version       uint64
-	Index         uint64
-	Proposed      uint64
-	Committed     uint64
-	Applied       uint64
-	Term          uint64
-	AppliedTerm   uint64
+	Version       uint8
+	Index         uint8
+	Proposed      uint8
+	Committed     uint8
+	Applied       uint8
+	Term          uint8
+	AppliedTerm   uint8
 	Master        bool // Status.Mastership.Master == the target's connection/relation id
 	AppliedMaster bool
 	State         int32
@@ -121,9 +121,9 @@ type Cfg struct {
 type Dev struct {
 	Connected   bool   // connection + CONTROLS relation exist
 	Vals        [NX]PV // device contents per leaf (Index = transaction whose value it holds)
-	MaxElection uint64 // highest election id seen
-	Sets        uint64 // number of accepted Sets (ghost)
-	LastSetTx   uint64 // ghost: transaction index of the last accepted change Set (0 = re-push)
+	MaxElection uint8  // highest election id seen
+	Sets        uint8  // number of accepted Sets (ghost)
+	LastSetTx   uint8  // ghost: transaction index of the last accepted change Set (0 = re-push)
 }
 
 // State is the whole system state (the state vector of the transition system)
@@ -134,9 +134,15 @@ type State struct {
 	Devs    [NT]Dev
 	Verdict [NT][NX]bool // plugin verdict per (target, transaction): environment, constant over time
 	// ghost monitors
-	MaxCommitted [NT]uint64 // highest Committed.Index ever written
-	Crashes      uint64     // number of steps that ended in a process stop
-	Faults       uint64     // number of device faults / disconnects / restarts injected
+	MaxCommitted      [NT]uint8 // highest Committed.Index ever written
+	LastMerged        [NT]uint8 // index stamped by the last merge into Values
+	MergeOutOfOrder   bool      // a merge happened with an index not above every earlier merge
+	SendBeforeMerge   bool      // a change was sent to the device before being merged into the stored configuration
+	SendOutOfOrder    bool      // a change was sent while an earlier proposal of that target had not finished applying
+	SendNotMaster     bool      // a Set was sent with an election id different from the stored mastership term
+	SendWhileUnsynced bool      // a change was sent in a term whose re-push had not completed
+	Crashes           uint8     // number of steps that ended in a process stop
+	Faults            uint8     // number of device faults / disconnects / restarts injected
 }
 
 // Params are the per-step environment parameters (fresh in every step)
@@ -144,15 +150,16 @@ type Params struct {
 	DevCode     int32    // gRPC code answered by a device for a Set in this step (0 = OK)
 	CrashAfter  int      // store/device calls allowed in this step before the process stops (<0: no crash)
 	ArgTargets  [NT]bool // append: targets named by the new change
-	ArgRollback uint64   // append rollback: index to roll back
+	ArgRollback uint8    // append rollback: index to roll back
 }
 
 var (
 	S State
 	P Params
 	// scratch of the current step
-	Writes     int // store/device calls performed in this step
-	CurT, CurX int // proposal being reconciled (for the plugin stub)
+	Writes         int  // store/device calls performed in this step
+	CurT, CurX     int  // proposal being reconciled (for the plugin stub)
+	InProposalStep bool // the current step reconciles a proposal
 )
 
 func crashed() bool { return WithCrash && P.CrashAfter >= 0 && Writes >= P.CrashAfter }
@@ -191,7 +198,7 @@ func (s *txStore) GetByIndex(ctx context.Context, index configapi.Index) (*confi
 		ov[string(vTarget(tg))] = &configapi.TargetTypeVersion{TargetType: vType, TargetVersion: vVer}
 	}
 	t.TargetVersionOverrides = &configapi.TargetVersionOverrides{Overrides: ov}
-	t.Version = rec.Version
+	t.Version = uint64(rec.Version)
 	t.Revision = 1
 	t.Status.State = configapi.TransactionStatus_State(rec.State)
 	if rec.Failed {
@@ -250,7 +257,7 @@ func (s *txStore) UpdateStatus(ctx context.Context, t *configapi.Transaction) er
 		return errors.NewNotFound("transaction not found")
 	}
 	rec := &S.Txs[t.Index-1]
-	if t.Version != rec.Version {
+	if t.Version != uint64(rec.Version) {
 		return errors.NewConflict("version mismatch")
 	}
 	rec.State = int32(t.Status.State)
@@ -279,8 +286,10 @@ func (s *txStore) UpdateStatus(ctx context.Context, t *configapi.Transaction) er
 	if rec.Apply.Present {
 		rec.Apply.State = int32(t.Status.Phases.Apply.State)
 	}
-	rec.Version++
-	t.Version = rec.Version
+	if WithVersions {
+		rec.Version++
+	}
+	t.Version = uint64(rec.Version)
 	Writes++
 	return nil
 }
@@ -323,7 +332,7 @@ func pvFlat(m map[string]*configapi.PathValue, pvs *[NX]PV) {
 		pvs[j].Present = ok && pv != nil
 		if pvs[j].Present {
 			pvs[j].Deleted = pv.Deleted
-			pvs[j].Index = uint64(pv.Index)
+			pvs[j].Index = uint8(pv.Index)
 		}
 	}
 }
@@ -346,7 +355,7 @@ func (s *propStore) Get(ctx context.Context, id configapi.ProposalID) (*configap
 			Values: map[string]*configapi.PathValue{path: {Path: path, Index: configapi.Index(i + 1), Value: *configapi.NewTypedValueString("v")}},
 		}}
 	}
-	p.Version = rec.Version
+	p.Version = uint64(rec.Version)
 	p.Revision = 1
 	p.TargetType = vType
 	p.TargetVersion = vVer
@@ -406,12 +415,12 @@ func (s *propStore) UpdateStatus(ctx context.Context, p *configapi.Proposal) err
 		return errors.NewNotFound("proposal not found")
 	}
 	rec := &S.Props[t][i]
-	if p.Version != rec.Version {
+	if p.Version != uint64(rec.Version) {
 		return errors.NewConflict("version mismatch")
 	}
-	rec.Prev = uint64(p.Status.PrevIndex)
-	rec.Next = uint64(p.Status.NextIndex)
-	rec.RollbackIndex = uint64(p.Status.RollbackIndex)
+	rec.Prev = uint8(p.Status.PrevIndex)
+	rec.Next = uint8(p.Status.NextIndex)
+	rec.RollbackIndex = uint8(p.Status.RollbackIndex)
 	pvFlat(p.Status.RollbackValues, &rec.Rollback)
 	rec.Init.Present = p.Status.Phases.Initialize != nil
 	if rec.Init.Present {
@@ -436,14 +445,16 @@ func (s *propStore) UpdateStatus(ctx context.Context, p *configapi.Proposal) err
 	rec.Apply.Present = p.Status.Phases.Apply != nil
 	if rec.Apply.Present {
 		rec.Apply.State = int32(p.Status.Phases.Apply.State)
-		rec.ApplyTerm = uint64(p.Status.Phases.Apply.Term)
+		rec.ApplyTerm = uint8(p.Status.Phases.Apply.Term)
 		rec.ApplyFailed = p.Status.Phases.Apply.Failure != nil
 		if rec.ApplyFailed {
 			rec.ApplyFailType = int32(p.Status.Phases.Apply.Failure.Type)
 		}
 	}
-	rec.Version++
-	p.Version = rec.Version
+	if WithVersions {
+		rec.Version++
+	}
+	p.Version = uint64(rec.Version)
 	Writes++
 	return nil
 }
@@ -471,7 +482,7 @@ func (s *cfgStore) Get(ctx context.Context, id configapi.ConfigurationID) (*conf
 	}
 	rec := &S.Configs[t]
 	c := &configapi.Configuration{ID: id, TargetID: vTarget(t), Index: configapi.Index(rec.Index)}
-	c.Version = rec.Version
+	c.Version = uint64(rec.Version)
 	c.Revision = 1
 	c.Values = pvMap(&rec.Values)
 	c.Status.State = configapi.ConfigurationStatus_State(rec.State)
@@ -511,7 +522,7 @@ func (s *cfgStore) Create(ctx context.Context, c *configapi.Configuration) error
 	if S.Configs[t].Exists {
 		return errors.NewAlreadyExists("configuration exists")
 	}
-	S.Configs[t] = Cfg{Exists: true, Version: 1, Proposed: uint64(c.Status.Proposed.Index)}
+	S.Configs[t] = Cfg{Exists: true, Version: 1, Proposed: uint8(c.Status.Proposed.Index)}
 	c.Version = 1
 	c.Revision = 1
 	Writes++
@@ -521,17 +532,19 @@ func (s *cfgStore) Create(ctx context.Context, c *configapi.Configuration) error
 func cfgFlat(t int, c *configapi.Configuration) {
 	rec := &S.Configs[t]
 	rec.State = int32(c.Status.State)
-	rec.Proposed = uint64(c.Status.Proposed.Index)
-	rec.Committed = uint64(c.Status.Committed.Index)
-	rec.Applied = uint64(c.Status.Applied.Index)
+	rec.Proposed = uint8(c.Status.Proposed.Index)
+	rec.Committed = uint8(c.Status.Committed.Index)
+	rec.Applied = uint8(c.Status.Applied.Index)
 	if WithSync {
-		rec.Term = uint64(c.Status.Mastership.Term)
-		rec.AppliedTerm = uint64(c.Status.Applied.Mastership.Term)
+		rec.Term = uint8(c.Status.Mastership.Term)
+		rec.AppliedTerm = uint8(c.Status.Applied.Mastership.Term)
 		rec.Master = c.Status.Mastership.Master != ""
 		rec.AppliedMaster = c.Status.Applied.Mastership.Master != ""
 	}
-	rec.Version++
-	c.Version = rec.Version
+	if WithVersions {
+		rec.Version++
+	}
+	c.Version = uint64(rec.Version)
 	if rec.Committed > S.MaxCommitted[t] {
 		S.MaxCommitted[t] = rec.Committed
 	}
@@ -546,12 +559,21 @@ func (s *cfgStore) Update(ctx context.Context, c *configapi.Configuration) error
 	if t < 0 || !S.Configs[t].Exists {
 		return errors.NewNotFound("configuration not found")
 	}
-	if c.Version != S.Configs[t].Version {
+	if c.Version != uint64(S.Configs[t].Version) {
 		return errors.NewConflict("version mismatch")
 	}
-	S.Configs[t].Index = uint64(c.Index)
+	S.Configs[t].Index = uint8(c.Index)
 	if c.Values != nil {
+		old := S.Configs[t].Values
 		pvFlat(c.Values, &S.Configs[t].Values)
+		if old != S.Configs[t].Values {
+			// ghost: merges must carry strictly increasing log indexes
+			idx := uint8(c.Status.Committed.Index)
+			if idx <= S.LastMerged[t] {
+				S.MergeOutOfOrder = true
+			}
+			S.LastMerged[t] = idx
+		}
 	}
 	cfgFlat(t, c)
 	return nil
@@ -565,7 +587,7 @@ func (s *cfgStore) UpdateStatus(ctx context.Context, c *configapi.Configuration)
 	if t < 0 || !S.Configs[t].Exists {
 		return errors.NewNotFound("configuration not found")
 	}
-	if c.Version != S.Configs[t].Version {
+	if c.Version != uint64(S.Configs[t].Version) {
 		return errors.NewConflict("version mismatch")
 	}
 	if c.Status.Applied.Values != nil {
@@ -623,10 +645,10 @@ type vConn struct {
 
 func (c *vConn) ID() gnmi.ConnID { return gnmi.ConnID(vConnID(c.t)) }
 
-func electionOf(r *gpb.SetRequest) uint64 {
+func electionOf(r *gpb.SetRequest) uint8 {
 	for _, e := range r.Extension {
 		if ma, ok := e.Ext.(*gnmi_ext.Extension_MasterArbitration); ok && ma.MasterArbitration != nil && ma.MasterArbitration.ElectionId != nil {
-			return ma.MasterArbitration.ElectionId.Low
+			return uint8(ma.MasterArbitration.ElectionId.Low)
 		}
 	}
 	return 0
@@ -659,6 +681,7 @@ func DeviceSet(t int, r *gpb.SetRequest) error {
 		return status.Error(codes.Code(P.DevCode), "device fault")
 	}
 	d.MaxElection = el
+	ghostSend(t, el)
 	for _, p := range r.Delete {
 		if j := leafOf(p); j >= 0 {
 			d.Vals[j].Present = false
@@ -672,6 +695,35 @@ func DeviceSet(t int, r *gpb.SetRequest) error {
 	d.Sets++
 	Writes++
 	return nil
+}
+
+// ghost monitors evaluated at the moment a Set is accepted by the device of target t
+func ghostSend(t int, el uint8) {
+	c := &S.Configs[t]
+	if WithSync && el != c.Term {
+		S.SendNotMaster = true
+	}
+	if !InProposalStep || CurT != t {
+		return // re-push by the configuration controller
+	}
+	x := CurX
+	if c.Committed < uint8(x+1) {
+		S.SendBeforeMerge = true
+	}
+	if WithSync && (c.State == int32(configapi.ConfigurationStatus_SYNCHRONIZING) || c.AppliedTerm != c.Term) {
+		S.SendWhileUnsynced = true
+	}
+	for i := 0; i < x; i++ {
+		p := &S.Props[t][i]
+		if !p.Exists {
+			continue
+		}
+		done := (p.Apply.Present && p.Apply.State != int32(configapi.ProposalApplyPhase_APPLYING)) ||
+			(p.Abort.Present && p.Abort.State == int32(configapi.ProposalAbortPhase_ABORTED))
+		if !done {
+			S.SendOutOfOrder = true
+		}
+	}
 }
 
 func (c *vConn) Set(ctx context.Context, r *gpb.SetRequest) (*gpb.SetResponse, error) {
@@ -728,6 +780,7 @@ const (
 // Step performs one scheduler choice.
 func Step(choice int) {
 	Writes = 0
+	InProposalStep = false
 	defer func() {
 		if crashed() {
 			S.Crashes++
@@ -745,7 +798,7 @@ func Step(choice int) {
 	for t := 0; t < NT; t++ {
 		for i := 0; i < NX; i++ {
 			if choice == ChProp+t*NX+i {
-				CurT, CurX = t, i
+				CurT, CurX, InProposalStep = t, i, true
 				r := proposalctl.NewReconcilerForVerif(tp, cm, props, cfgs, &registry{})
 				_, _ = r.Reconcile(controller.NewID(proposalstore.NewID(vTarget(t), configapi.Index(i+1))))
 			}
